@@ -201,18 +201,22 @@ package fscache
 //@   at_call Filespace.IsFile requires $recv == c.bufferFS && $0 == src
 //@   at_call Filespace.MkdirAll requires $recv == c.remoteFS
 //@   at_call StreamCopy requires $0 == c.bufferFS && $1 == c.remoteFS && $2 == src
+//@   loop 1 invariant rmerr == nil && rmallerr == nil && mkerr == nil && cperr == nil && treeerr == nil
 //@   loop 1 invariant CInv(c)
 //@   loop 1 trace_step isexist && rmerr == nil : ^ISEXIST RM $
 //@   loop 1 trace_step !isexist : ^ISEXIST $
 //@   loop 1 trace_step rmerr != nil : ^$
+//@   loop 2 invariant rmerr == nil && rmallerr == nil && mkerr == nil && cperr == nil && treeerr == nil
 //@   loop 2 invariant CInv(c) && foralls(k, has(c.changes.remove, k) ==> visitedIn(1, k))
 //@   loop 2 trace_step isexist && rmallerr == nil : ^ISEXIST RMALL $
 //@   loop 2 trace_step !isexist : ^ISEXIST $
 //@   loop 2 trace_step rmallerr != nil : ^$
+//@   loop 3 invariant rmerr == nil && rmallerr == nil && mkerr == nil && cperr == nil && treeerr == nil
 //@   loop 3 invariant CInv(c) && foralls(k, has(c.changes.remove, k) ==> visitedIn(1, k)) && foralls(k, has(c.changes.removeAll, k) ==> visitedIn(2, k))
 //@   loop 3 trace_step isdir && mkerr == nil : ^ISDIR MK $
 //@   loop 3 trace_step !isdir : ^ISDIR $
 //@   loop 3 trace_step mkerr != nil : ^$
+//@   loop 4 invariant rmerr == nil && rmallerr == nil && mkerr == nil && cperr == nil && treeerr == nil
 //@   loop 4 invariant CInv(c) && foralls(k, has(c.changes.remove, k) ==> visitedIn(1, k)) && foralls(k, has(c.changes.removeAll, k) ==> visitedIn(2, k)) && foralls(k, has(c.changes.mkdirAll, k) ==> visitedIn(3, k))
 //@   loop 4 trace_step isfile && mkerr == nil && cperr == nil : ^ISFILE MK COPY $
 //@   loop 4 trace_step !isfile && isdir && treeerr == nil : ^ISFILE ISDIR TREE $
@@ -238,16 +242,17 @@ package fscache
 //@   ensures rr.1 != nil && br.1 != nil ==> err != nil && len(result) == 0
 //@   loop 1 invariant -1 <= $i && $i < len(bufferDirs) && len(result) >= len(remoteDirs)
 //@   loop 1 invariant forall(k, 0 <= k && k < len(remoteDirs) ==> result[k] == remoteDirs[k]) && forall(k, len(remoteDirs) <= k && k < len(result) ==> forall(j, 0 <= j && j < len(remoteDirs) ==> Name(result[k]) != Name(remoteDirs[j])))
-//@   loop 1 invariant (arr(result) != arr(bufferDirs) || len(bufferDirs) == 0) && (arr(result) == arr(remoteDirs) ==> off(result) == off(remoteDirs)) && (arr(bufferDirs) == 0 || allocated(arr(bufferDirs))) && (arr(remoteDirs) == 0 || allocated(arr(remoteDirs)))
+//@   loop 1 invariant (arr(result) != arr(bufferDirs) || len(bufferDirs) == 0) && (arr(result) == arr(remoteDirs) ==> off(result) == off(remoteDirs)) && (arr(bufferDirs) == 0 || allocated(arr(bufferDirs))) && (arr(remoteDirs) == 0 || allocated(arr(remoteDirs))) && (arr(result) == 0 || allocated(arr(result)))
 //@   loop 1 invariant forall(k, 0 <= k && k < len(bufferDirs) ==> bufferDirs[k] != nil) && forall(k, 0 <= k && k < len(remoteDirs) ==> remoteDirs[k] != nil)
 //@   loop 2 invariant -1 <= $i && $i < len(remoteDirs) && bnode != nil && len(result) >= len(remoteDirs)
 //@   loop 2 invariant forall(k, 0 <= k && k < len(remoteDirs) ==> result[k] == remoteDirs[k]) && forall(k, len(remoteDirs) <= k && k < len(result) ==> forall(j, 0 <= j && j < len(remoteDirs) ==> Name(result[k]) != Name(remoteDirs[j])))
 //@   loop 2 invariant forall(j, 0 <= j && j <= $i ==> Name(bnode) != Name(remoteDirs[j]))
-//@   loop 2 invariant (arr(result) != arr(bufferDirs) || len(bufferDirs) == 0) && (arr(result) == arr(remoteDirs) ==> off(result) == off(remoteDirs)) && (arr(bufferDirs) == 0 || allocated(arr(bufferDirs))) && (arr(remoteDirs) == 0 || allocated(arr(remoteDirs)))
+//@   loop 2 invariant (arr(result) != arr(bufferDirs) || len(bufferDirs) == 0) && (arr(result) == arr(remoteDirs) ==> off(result) == off(remoteDirs)) && (arr(bufferDirs) == 0 || allocated(arr(bufferDirs))) && (arr(remoteDirs) == 0 || allocated(arr(remoteDirs))) && (arr(result) == 0 || allocated(arr(result)))
 //@   loop 2 invariant forall(k, 0 <= k && k < len(bufferDirs) ==> bufferDirs[k] != nil) && forall(k, 0 <= k && k < len(remoteDirs) ==> remoteDirs[k] != nil)
 //@   ensures !(rr.1 != nil && br.1 != nil) ==> err == nil
 //@   ensures err == nil ==> len(result) >= len(rr.0)
 // the merge: the remote's entries first, then only buffer entries under names the remote does not list
 //@   ensures err == nil ==> forall(k, 0 <= k && k < len(rr.0) ==> result[k] == rr.0[k])
 //@   ensures err == nil ==> forall(k, len(rr.0) <= k && k < len(result) ==> forall(j, 0 <= j && j < len(rr.0) ==> Name(result[k]) != Name(rr.0[j])))
-//@   loop 1 invariant remoteDirs == rr.0
+//@   loop 1 invariant remoteDirs == rr.0 && bufferDirs == br.0 && (rr.1 == nil || br.1 == nil)
+//@   loop 2 invariant remoteDirs == rr.0 && bufferDirs == br.0 && (rr.1 == nil || br.1 == nil)
